@@ -324,7 +324,7 @@ theorem compile_wellformed (env : Env) (file : AFile) (n0 : Nat) (G : List Strin
     `ref_get__T`, `ref_set__T`, `array_get__T`, `array_set__T`: an index of type `int32`, the helper's parameter type);
     construction and field access of admitted structs, enum variants, tuples (of a tuple type whose struct the file
     declares) and arrays; `let`, `if`, `while`; `match` on an enum variable that no enclosing arm has narrowed already
-    (Go rejects a type switch on a variable of struct type: the known C02 finding), on a literal, on unit),
+    (Go rejects a type switch on a variable of struct type: the known C02 finding), on a literal, on unit; `go`),
     in a file whose struct declarations carry the Go types of the fields and whose variant structs have the methods of
     their enum's interface (`typedTablesOK`: decidable, on the model's own output), the compiled Go function obeys the
     **typing** rules of `Go.check` — every expression has the Go type of its ANF annotation (up to `norm`: the result type
@@ -334,8 +334,8 @@ theorem compile_wellformed (env : Env) (file : AFile) (n0 : Nat) (G : List Strin
     are read from the variant's struct, call arguments, fields and elements of composite literals, assignments,
     initialisers and the `return` are assignable, integer literals fit their type, expression statements are calls, the body
     ends in a `return` — in the typing context of the emitted file.
-    *Partial* in two ways: (i) not all of the fragment (trait objects and `go` are not covered; `Vec` operations and
-    `string_len` cannot be: the mirror answers "unknown" on `append`, `len` and conversions); (ii) `Go.check` itself is
+    *Partial* in two ways: (i) not all of the fragment (trait objects are not covered; `Vec` operations and `string_len`
+    cannot be: the mirror answers "unknown" on `append`, `len` and conversions); (ii) `Go.check` itself is
     written with `partial def`s, opaque to the kernel, so the statement is about its total mirror `GoTyping.fnOKT`
     (`Model/GoTyping.lean`), which `gomlmodel gocomp` compares with `Go.check` on every function of every real emitted file
     on every run (0 disagree).  No separate `Wt` hypothesis: the fragment check `fragA` is itself a type checker of the ANF
@@ -605,6 +605,7 @@ private def exMainG : AFn :=
 private def exFileG : AFile := [exApplyG, exMainG]
 example : InGoFragment envG exFileG 0 exApplyG ∧ InGoFragment envG exFileG 0 exMainG := by
   constructor <;> (unfold InGoFragment; decide +kernel)
+example : stdFn envG exFileG exApplyG = true ∧ stdFn envG exFileG exMainG = true ∧ typedTablesOK envG exFileG 0 = true := by decide +kernel
 example : (Sem.run 200 (progOf exFileG)).out = "spawned\nmain\n" ∧ (Sem.run 200 (progOf exFileG) "main" false).out = "main\n" := by
   decide +kernel
 /-- trait objects are inside `InGoFragmentD`: `trait Show { fn show(self) -> string }`, `impl Show for P`, and a `main` that
